@@ -75,7 +75,12 @@ func checkEqualityTables(r *Run, prog *Program, a *Anchors, pfx string) {
 			if acc != spec.accessor {
 				probs = append(probs, fmt.Sprintf("comparator %s reads the value with %q, expected %s", f.Name(), acc, spec.accessor))
 			}
-			probs = append(probs, comparatorBody(f, spec)...)
+			probs = append(probs, kt.cmpBody[f]...)
+			if spec.dyn != "float32" {
+				for _, b := range kt.cmpBody[f] {
+					_ = b
+				}
+			}
 		}
 		ct := kt.coerceType[k]
 		if ct == nil || ct.String() != spec.dyn {
